@@ -491,18 +491,30 @@ impl CmXmlParser {
         if level == "1" {
             metadata_blocks.push(ExtMetadataBlock::Level1(self.parse_level1_trim(node)?));
         } else if level == "2" {
-            metadata_blocks.push(ExtMetadataBlock::Level2(self.parse_level2_trim(node)?));
+            if self.trim_target_is_known(node) {
+                metadata_blocks.push(ExtMetadataBlock::Level2(self.parse_level2_trim(node)?));
+            }
         } else if level == "3" {
             metadata_blocks.push(ExtMetadataBlock::Level3(self.parse_level3_trim(node)?));
         } else if level == "5" {
             metadata_blocks.push(ExtMetadataBlock::Level5(self.parse_level5_trim(node)?));
         } else if level == "8" {
-            metadata_blocks.push(ExtMetadataBlock::Level8(self.parse_level8_trim(node)?));
+            if self.trim_target_is_known(node) {
+                metadata_blocks.push(ExtMetadataBlock::Level8(self.parse_level8_trim(node)?));
+            }
         } else if level == "9" {
             metadata_blocks.push(ExtMetadataBlock::Level9(self.parse_level9_trim(node)?));
         }
 
         Ok(())
+    }
+
+    /// Trims can refer to target displays which are not parsed (non HOME targets in XML v5.0+)
+    fn trim_target_is_known(&self, node: &Node) -> bool {
+        node.children()
+            .find(|e| e.has_tag_name("TID"))
+            .and_then(|e| e.text())
+            .is_some_and(|target_id| self.target_displays.contains_key(target_id))
     }
 
     pub fn parse_global_level5(&mut self, output: &Node) -> Result<()> {
